@@ -2,6 +2,8 @@ package wire
 
 import (
 	"context"
+	"io"
+	"net"
 	"sync"
 	"time"
 
@@ -386,7 +388,7 @@ func (c *ClientConn) SendDisconnect(ctx context.Context, msg *message.Disconnect
 	// bounded by the contexts like the write of a request: a transport that is redialling, or a peer that
 	// stopped reading, keeps the write waiting (closing the transport, which the caller does next, releases it)
 	written := make(chan error, 1)
-	go func() { written <- c.transport.Write(msg) }()
+	go func() { written <- writeErr(c.transport.Write(msg)) }()
 	select {
 	case <-ctx.Done():
 		return ctx.Err()
@@ -514,7 +516,7 @@ func (c *ClientConn) SendUpstreamChunk(ctx context.Context, req *message.Upstrea
 	if !ok {
 		return errors.New("stream not exist")
 	}
-	err := tr.Write(req)
+	err := writeErr(tr.Write(req))
 	return err
 }
 
@@ -701,17 +703,17 @@ func (c *ClientConn) SendDownstreamCloseRequest(ctx context.Context, req *messag
 
 // SendDownstreamDataPointsAckは、DownstreamMetadataAckを送信します。
 func (c *ClientConn) SendDownstreamDataPointsAck(ctx context.Context, ack *message.DownstreamChunkAck) error {
-	return c.transport.Write(ack)
+	return writeErr(c.transport.Write(ack))
 }
 
 // SendDownstreamMetadataAckは、DownstreamMetadataAckを送信します。
 func (c *ClientConn) SendDownstreamMetadataAck(ctx context.Context, ack *message.DownstreamMetadataAck) error {
-	return c.transport.Write(ack)
+	return writeErr(c.transport.Write(ack))
 }
 
 // SendUpstreamCallは、UpstreamCallを送信します。
 func (c *ClientConn) SendUpstreamCall(ctx context.Context, call *message.UpstreamCall) error {
-	return c.transport.Write(call)
+	return writeErr(c.transport.Write(call))
 }
 
 // ReceiveUpstreamCallAckは、UpstreamCallAckを待ち受けます。
@@ -755,6 +757,21 @@ func responseAs[T message.Request](resp message.Request) (T, error) {
 	return v, nil
 }
 
+// writeErr classifies a failed transport write: when the transport reports that the connection is gone in words of
+// its own (close-status errors, socket errors) the error is also ErrConnectionClosed - callers resend after the
+// reconnect only what failed with that.
+func writeErr(err error) error {
+	if err == nil || errors.Is(err, errors.ErrConnectionClosed) {
+		return err
+	}
+	var netErr net.Error
+	if errors.Is(err, errors.ErrConnectionClose) || errors.Is(err, io.EOF) || errors.Is(err, io.ErrUnexpectedEOF) ||
+		errors.Is(err, io.ErrClosedPipe) || errors.Is(err, net.ErrClosed) || errors.As(err, &netErr) {
+		return errors.Errorf("%v: %w", err, errors.ErrConnectionClosed)
+	}
+	return err // e.g. a message the encoder refuses: resending it would fail again
+}
+
 func (c *ClientConn) sendRequest(ctx context.Context, req message.Request) (message.Request, error) {
 	reply := make(chan message.Request, 1)
 	c.mu.Lock()
@@ -763,7 +780,7 @@ func (c *ClientConn) sendRequest(ctx context.Context, req message.Request) (mess
 	// the write is bounded by the contexts as well: a peer that stopped reading blocks it indefinitely
 	// (closing the transport, which the keep-alive does on a ping timeout, releases it)
 	written := make(chan error, 1)
-	go func() { written <- c.transport.Write(req) }()
+	go func() { written <- writeErr(c.transport.Write(req)) }()
 	select {
 	case <-ctx.Done():
 		return nil, ctx.Err()
